@@ -9,7 +9,7 @@
    the message; the 256-byte version is refuted in C15_long_address_regress).
    [op_ok]: advance-clock steps are non-negative. *)
 From Coq Require Import List ZArith.
-From RtoscV Require Import Undo.UndoModel Undo.UndoProofs Undo.UndoRegress.
+From RtoscV Require Import Undo.UndoModel Undo.UndoProofs Undo.UndoRegress Undo.UndoPortsModel Undo.UndoPortsProofs.
 Import ListNotations.
 Local Open Scope Z_scope.
 
@@ -125,3 +125,70 @@ Theorem C15_nonvacuous_e2e :
   exists f s, erun ex_eops (zero_store, init) = Some (f, s) /\
     pos s = 2%nat /\ length (hist s) = 3%nat /\ f ex_A = 7 /\ f ex_B = 3.
 Proof. exact e2e_nonvacuous. Qed.
+
+(* ---- end to end through C14's ports (Undo/UndoPortsModel.v) ------------------
+   The application is a table of macro-generated ports with the contents of
+   their fields; a set message runs the matching port's callback (C14's model)
+   and what it hands to reply("/undo_change") is recorded; a seek dispatches the
+   history's set-messages back into the table.
+   [table_ok]: every port is of a kind with a modelled callback, its declared
+   range is ordered, its option numbers lie inside it, no two ports answer the
+   same address.  [cells_ok]: the fields hold values inside the declared ranges.
+   [pop_ok]: addresses from U (one spelling per element: "/n1", not also
+   "/n01"), never "/undo_change"; the set messages are those of C14's quantifier;
+   float values are ordered and not -0.0 (for those the ports' "!=" and bit
+   equality differ); the clock does not run backwards.
+   [abs U t a] is the value of the field element the address names.
+
+   After any such history that the model runs (None = a callback would read
+   outside its field), seeking back over everything delivers every undo message
+   to a port (ports reached = messages) and returns every parameter to the value
+   it had before its oldest retained change; seeking forward returns the latest
+   values.  The fields stay inside their ranges. *)
+Theorem C15_ports_undo_all : forall ps U t0 ops t s,
+  table_ok ps -> one_spelling ps U -> ports t0 = ps -> cells_ok t0 ->
+  Forall (pop_ok ps U) ops -> prun ops (t0, init) = Some (t, s) ->
+  (exists t' s' ms,
+     pstep (t, s) (PSeek (- Z.of_nat (pos s))) = Some ((t', s'), ms, Z.of_nat (length ms)) /\
+     pos s' = 0%nat /\ cells_ok t' /\
+     forall a, abs U t' a = value_before_oldest (hist s) a (abs U t a)) /\
+  (exists t' s' ms,
+     pstep (t, s) (PSeek (Z.of_nat (length (hist s) - pos s))) = Some ((t', s'), ms, Z.of_nat (length ms)) /\
+     pos s' = length (hist s) /\ cells_ok t' /\
+     forall a, abs U t' a = value_latest (hist s) a (abs U t a)).
+Proof. exact ports_undo_redo. Qed.
+
+(* every seek, wherever the cursor is: all its messages reach a port, and the
+   fields afterwards are the store of the abstract application with the
+   messages applied (so C15_seek_back / C15_seek_forward speak about the
+   fields); the invariant - the retained events carry their port's own type
+   tag and values the port stores unchanged - is kept *)
+Theorem C15_ports_seek : forall ps U t s k,
+  table_ok ps -> one_spelling ps U -> pinv ps U (t, s) ->
+  exists t' s' ms, pstep (t, s) (PSeek k) = Some ((t', s'), ms, Z.of_nat (length ms)) /\
+    seek k s = Some (s', ms) /\ pinv ps U (t', s') /\
+    forall a, abs U t' a = apply_msgs (abs U t) ms a.
+Proof. exact pseek_inv. Qed.
+
+Theorem C15_ports_invariant : forall ps U ops st st',
+  table_ok ps -> one_spelling ps U -> pinv ps U st -> Forall (pop_ok ps U) ops ->
+  prun ops st = Some st' -> pinv ps U st'.
+Proof. exact prun_inv. Qed.
+
+(* the hypotheses are satisfiable: a clamped rParamI, an rArrayI and an rToggle *)
+Theorem C15_nonvacuous_ports :
+  table_ok ex_ports /\ one_spelling ex_ports ex_U /\ cells_ok ex_table /\
+  Forall (pop_ok ex_ports ex_U) ex_pops /\
+  exists t s, prun ex_pops (ex_table, init) = Some (t, s) /\
+    t = [(ex_pi, [100]); (ex_pn, [0; 5; -3; 0]); (ex_pt, [1])] /\
+    hist s = [mkEv 1000 [47; 105] 105 0 100; mkEv 1000 [47; 110; 49] 105 0 5;
+              mkEv 1003 [47; 110; 50] 105 0 (-3)] /\ pos s = 3%nat.
+Proof. exact ports_nonvacuous. Qed.
+
+(* the type tag of the event matters (C14_undo_event_replays supplies it): the
+   set-message of an event with 'c' payloads for an element of "n#4::i" reaches
+   no port and restores nothing, the one with 'i' payloads does *)
+Theorem C15_event_tag_matters :
+  replay_msgs [(ex_pn, [0; 5; 0; 0])] [SetMsg [47; 110; 49] 99 0] = Some ([(ex_pn, [0; 5; 0; 0])], 0) /\
+  replay_msgs [(ex_pn, [0; 5; 0; 0])] [SetMsg [47; 110; 49] 105 0] = Some ([(ex_pn, [0; 0; 0; 0])], 1).
+Proof. exact wrong_tag_not_replayed. Qed.
